@@ -187,6 +187,10 @@ def gen_c05(r, knobs=None):
                 kind = r.choice(RUN_FAULTS)
                 b.op(op='armrun', slug=victim.slug, kind=kind, at=r.choice([0, 1, 3]))
                 b.req(cid, name)
+                if r.random() < 0.3:
+                    # fails twice in a row
+                    b.op(op='armrun', slug=victim.slug, kind=r.choice(RUN_FAULTS), at=r.choice([0, 1]))
+                    b.req(cid, name)
                 b.op(op='insp', cid=cid, kind='has_data')
                 b.op(op='ls', store='main', expect='error_dirs')
                 b.req(cid, name)         # retry in the same process: must recover
@@ -418,6 +422,7 @@ def gen_c07(r, knobs=None):
     nproc = r.randint(1, 3)
     # name mode (A4): no context; and - for set-driven recompute, whose order is arbitrary - no config mounted twice
     # (two task objects on one name-mode location would make the set of runs depend on that order)
+    faulty = r.random() < 0.3      # some force histories also contain failing runs (recompute is then never combined with them)
     plain_roots = [i for i, rt in enumerate(world['roots']) if not rt.get('overrides') and
                    len({(it.slug, it.cfg) for it in b.model(i).values()}) == len(b.model(i))]
     name_mode = bool(plain_roots) and r.random() < 0.25
@@ -443,10 +448,17 @@ def gen_c07(r, knobs=None):
                 b.op(op='tforce', cid=cid, task=n, name=n, delete=r.random() < 0.4 and b.delete_ok(cid, [n], live))
             elif t < 0.45:
                 ns = r.sample(names, min(len(names), r.choice([1, 1, 2, 3])))
-                b.op(op='cforce', cid=cid, tasks=ns, names=ns, recompute=r.random() < 0.45,
+                b.op(op='cforce', cid=cid, tasks=ns, names=ns, recompute=r.random() < 0.45 and not faulty,
                      delete=r.random() < 0.4 and b.delete_ok(cid, ns, live), single_as_str=r.random() < 0.5, as_objects=r.random() < 0.25)
             elif t < 0.8:
-                b.req(cid, r.choice(names))
+                n = r.choice(names)
+                if faulty and r.random() < 0.25:
+                    insts = b.insts(cid)
+                    ups = [n] + sorted(_upstream_names(insts[n]))
+                    b.op(op='armrun', slug=insts[r.choice(ups)].slug, kind=r.choice(RUN_FAULTS[:4]), at=0)
+                    b.req(cid, n)
+                    b.op(op='disarm')
+                b.req(cid, n)
             elif t < 0.92:
                 _inspect(b, cid, ['has_data', 'flags', 'flags', 'tasks_df'])
             elif name_mode:
@@ -562,6 +574,12 @@ def gen_c13(r, knobs=None):
                     others = [c for c in live if c not in members]
                     dele = r.random() < 0.3 and all(b.delete_ok(m, ns, others + [m]) for m in members)
                     b.op(op='mforce', mid=mid, tasks=ns, names=ns, recompute=r.random() < 0.4, delete=dele)
+            elif t < 0.93:
+                # forcing through one member chain (graph queries on a chain that holds shared task objects)
+                cid = r.choice(live)
+                names = b.names(cid)
+                ns = r.sample(names, min(len(names), r.choice([1, 2])))
+                b.op(op='cforce', cid=cid, tasks=ns, names=ns, recompute=r.random() < 0.3, delete=False)
             else:
                 _inspect(b, r.choice(live), ['has_data', 'flags', 'data_path'])
     return b.scenario()
@@ -578,8 +596,12 @@ def gen_c18(r, knobs=None):
     for pi in range(r.randint(1, 3)):
         b.proc(hs=r.choice([0, 1]))
         live = []
+        quiet = False
         for _ in range(r.randint(3, 10)):
             t = r.random()
+            if r.random() < 0.08:
+                quiet = not quiet
+                b.op(op='quietlog', on=quiet)
             if not live or t < 0.18:
                 root = r.randrange(len(world['roots']))
                 live.append(b.build(root, b.render(rich=r.random() < 0.4)))
